@@ -156,3 +156,32 @@ Theorem C08_pst13_commit_additive :
     forall i, co i c3 = co i c1 + a * co i c2.
 Proof. exact @pst13_commit_additive. Qed.
 Print Assumptions C08_pst13_commit_additive.
+
+(* ---------------- the hash-based schemes (Reed-Solomon rows; column hash and Merkle tree an ideal vector commitment, so the root
+   stands for the extended matrix) ---------------- *)
+From PC Require Import Schemes.CalcT Schemes.Ligero Proofs.LigeroFacts Proofs.LigeroCommit.
+
+(* the layout of the coefficient matrix: row-major, entry (i, j) is coefficient i * n_cols + j, zero beyond the polynomial *)
+Theorem C08_lig_matrix_entry :
+  forall (FO : FieldOps) n_rows n_cols (p : list F) i j,
+    p <> [] -> (i < n_rows)%nat -> (j < n_cols)%nat ->
+    nth j (nth i (lig_matrix n_rows n_cols p) []) 0 = nth (i * n_cols + j) p 0.
+Proof. exact @lig_matrix_entry. Qed.
+Print Assumptions C08_lig_matrix_entry.
+
+Theorem C08_lig_matrix_ignores_trailing_zeros :
+  forall (FO : FieldOps) n_rows n_cols (p : list F) k,
+    p <> [] -> lig_matrix n_rows n_cols (p ++ repeat 0 k) = lig_matrix n_rows n_cols p.
+Proof. exact @lig_matrix_ignores_trailing_zeros. Qed.
+Print Assumptions C08_lig_matrix_ignores_trailing_zeros.
+
+(* different polynomials, different commitments: over a domain of distinct positions at least as long as a row, equal extended
+   matrices force equal polynomials (as functions) *)
+Theorem C08_ligero_commitment_injective :
+  forall (FO : FieldOps) (FL : FieldLaws FO) omega n_ext n_rows n_cols (p q : list F),
+    NoDup (dom omega n_ext) -> (n_cols <= n_ext)%nat ->
+    (length p <= n_rows * n_cols)%nat -> (length q <= n_rows * n_cols)%nat ->
+    map (encode omega n_ext) (lig_matrix n_rows n_cols q) = map (encode omega n_ext) (lig_matrix n_rows n_cols p) ->
+    forall z, eval q z = eval p z.
+Proof. exact @ligero_commitment_injective. Qed.
+Print Assumptions C08_ligero_commitment_injective.
